@@ -33,6 +33,12 @@ MUTANTS = [
                 prv_value = msg_value""", """                prv_track = msg_channel
                 prv_value = msg_value if self.flag_running_values else prv_value""",
      "running value not updated when running values are off (harmless by itself: value token is always emitted) — expected NOT detected"),
+    ("c01f", "C01", T, """                                   if nxt_rest >= step_size and _can_bridge(nxt_rest - step_size)), None)""",
+     """                                   if nxt_rest >= step_size), None)""",
+     "tokenise: rests bridged largest-step-first again (the state before fix 8d5a376: 9 = 8 + 1 fails)"),
+    ("c01g", "C01", T, """                self._bridgeable_rests.append(any(step_size <= value and self._bridgeable_rests[value - step_size]""",
+     """                self._bridgeable_rests.append(any(step_size < value and self._bridgeable_rests[value - step_size]""",
+     "tokenise: a remainder equal to a step size is considered unbridgeable (different decomposition or exception)"),
     ("c01e", "C01", T, """                    sequences[prv_track].add_absolute_message(
                         Message(message_type=MessageType.NOTE_OFF, note=note_pitch, time=cur_time + prv_value)""",
      """                    sequences[prv_track].add_absolute_message(
